@@ -293,6 +293,11 @@ def analyse (repos : List RepoIn) : Except Err (List Analysed × List Reg) :=
   | .error e => .error e
   | .ok order => analyseAll repos order [] []
 
+/-- what `ReposCollection.__init__` keeps of the entries it is given: an entry that is a path whose id has no class in
+`_REPOS_TYPES` is skipped with a warning (`known = false`); it is then no member of the collection, also when another
+repository names it as a component -/
+def keptRepos {α} (supplied : List (α × Bool)) : List α := (supplied.filter (·.2)).map (·.1)
+
 /-- `included_at` of the build `iid` of repository `comp` -/
 def includedAt (regs : List Reg) (comp iid : Nat) : List Reg :=
   regs.filter fun r => r.comp == comp && r.iid == iid
